@@ -366,7 +366,7 @@ func init() {
 			"domain = strings built from known identifiers; strings in which the reference decoder meets an unknown identifier octet (or a 0x0X type-1 look-alike) are counted and skipped here (C01/C03 still judge them)",
 			"dynamic half only: what the 90 generated functions do on the strings generated; no AST analysis (outside this technique)",
 		},
-		Oracles: map[string]func(*core.Ctx, *core.Case){"cold-concurrent": coldConcurrent, "decode": c04Decode, "encode": c04Encode, "structure": c04Structure},
+		Oracles: map[string]func(*core.Ctx, *core.Case){"cold-entries": coldEntries, "cold-concurrent": coldConcurrent, "decode": c04Decode, "encode": c04Encode, "structure": c04Structure},
 	}
 	p.Floors = func(tier string, cov map[string]map[string]int64, cnt map[string]int64) []string {
 		sp, err := codecSpec()
@@ -536,6 +536,7 @@ func init() {
 			}
 		})...)
 		us = append(us, coldUnits(tier, "nasMessage", "decode", "encode")...)
+		us = append(us, coldEntryUnits(tier, "nasMessage", "codec")...)
 		return us
 	}
 	core.Register(p)
